@@ -491,8 +491,30 @@ def midpoints(x, dim=None):
     return (x[dim, 1:] + x[dim, :-1]) * Fraction(1, 2) if x.dtype.name in ('float64', 'float32') else (x[dim, 1:] + x[dim, :-1]) / 2
 
 
-def isclose(*a, **k):
-    raise C.Unsupported('isclose')
+def isclose(x, y, rtol=None, atol=None, equal_nan=False):
+    """Element-wise |x - y| <= atol + rtol*|y| (scipp defaults rtol 1e-5, atol 1e-8 for dimensionless y)."""
+    x, y = V._as_var(x), V._as_var(y)
+    if x.unit != y.unit:
+        raise UnitError(f'isclose: units differ {x.unit} vs {y.unit}')
+    if rtol is None:
+        rtol = scalar(1e-5)
+    if atol is None:
+        if y.unit not in (None, Unit()):
+            raise UnitError('isclose: atol must be given for data with a unit')
+        atol = scalar(1e-8)
+    if atol.unit != y.unit and not (atol.unit in (None, Unit()) and y.unit in (None, Unit())):
+        raise UnitError(f'isclose: atol unit {atol.unit} vs {y.unit}')
+    dims, shape = V._merge_dims(x, y)
+    xa = np.broadcast_to(V._expand(x, dims), shape)
+    ya = np.broadcast_to(V._expand(y, dims), shape)
+    out = np.empty(shape, dtype=object)
+    for idx in np.ndindex(shape):
+        p, q = R.lift(xa[idx]), R.lift(ya[idx])
+        if p.special or q.special:
+            out[idx] = C.B.const(p.special == q.special and (p.special != 'nan' or equal_nan))
+        else:
+            out[idx] = _b.abs(p - q) <= atol.value + rtol.value * _b.abs(q)
+    return Variable(_arr=out, dims=dims, unit=None, dtype=DType.bool)
 
 
 def transpose(x, dims=None):
